@@ -132,6 +132,11 @@ func (i *interpreter) zzCall(fr *frame, fn *ssa.Function, args []value) value {
 		return s
 	case "AnyBool":
 		return px.fresh(strArg(args[0]), kBool, 0)
+	case "AnyStringAtom":
+		k := asInt64(args[1])
+		id := px.fresh(strArg(args[0]), kBV, 8)
+		px.assertTerm("(bvult " + id.t + " " + bvLit(uint64(k), 8) + ")")
+		return symstr{id: id}
 	case "AnyFloat64":
 		return px.fresh(strArg(args[0]), kFP, 64)
 	case "AnyFloat32":
@@ -178,6 +183,8 @@ func (i *interpreter) zzCall(fr *frame, fn *ssa.Function, args []value) value {
 		return px.or(args[0], args[1])
 	case "Not":
 		return px.notv(args[0])
+	case "Iff":
+		return px.or(px.and(args[0], args[1]), px.and(px.notv(args[0]), px.notv(args[1])))
 	case "Implies":
 		return px.or(px.notv(args[0]), args[1])
 	case "IteInt", "IteInt64", "IteBool":
@@ -328,7 +335,16 @@ func init() {
 		"os.Getpid":      func(fr *frame, a []value) value { return 1 },
 
 		"strings.Join":      intStringsJoin,
-		"strings.HasPrefix": func(fr *frame, a []value) value { return strings.HasPrefix(a[0].(string), a[1].(string)) },
+		"strings.HasPrefix": func(fr *frame, a []value) value {
+			if ss, ok := a[0].(symstr); ok {
+				p := a[1].(string)
+				if len(p) <= len(ss.prefix) {
+					return strings.HasPrefix(ss.prefix, p)
+				}
+				return false
+			}
+			return strings.HasPrefix(a[0].(string), a[1].(string))
+		},
 		"strings.HasSuffix": func(fr *frame, a []value) value { return strings.HasSuffix(a[0].(string), a[1].(string)) },
 		"strings.Contains":  func(fr *frame, a []value) value { return strings.Contains(a[0].(string), a[1].(string)) },
 		"strings.TrimPrefix": func(fr *frame, a []value) value { return strings.TrimPrefix(a[0].(string), a[1].(string)) },
@@ -572,6 +588,8 @@ func (i *interpreter) goNative(fr *frame, v value, t types.Type, depth int) inte
 		return nil
 	case sym:
 		return "<sym>"
+	case symstr:
+		return x.prefix + "<symstr>"
 	case iface:
 		if x.t == nil {
 			return nil
@@ -793,6 +811,8 @@ func (i *interpreter) pinnedCall(fn *ssa.Function, name string, args []value) (v
 			txt = vals[n]
 		}
 		switch name {
+		case "AnyStringAtom":
+			return string([]byte{1, byte('a' + parseU(txt))}), true
 		case "AnyBool":
 			return txt == "true", true
 		case "AnyFloat64":
